@@ -16,10 +16,16 @@
 (* the tie at the boundary is outside the claim.  Compact layout: row p is the row of      *)
 (* supercell atom p2s[p].                                                                   *)
 (*                                                                                         *)
-(* The minimum over Z^3 is taken over a box -B..B of supercell lattice coefficients;       *)
+(* ReqAtomsDistinct: the logged atoms are |det S| x (atoms of the unit cell) pairwise       *)
+(* distinct points modulo the supercell lattice (the projection of the real cell is sane). *)
+(*                                                                                         *)
+(* The images are enumerated on a second basis rbas = S U of the same lattice (ReqRebase:   *)
+(* U unimodular, chosen by the harness so that the basis is short; any choice is sound).    *)
+(* The separation is first wrapped into the cell centred at the origin (Wrapped); the      *)
+(* minimum over Z^3 is taken over a box -B..B of coefficients on that basis around it;      *)
 (* ReqBoxSound proves for every pair that no image outside the box can be as short         *)
 (* (Cauchy-Schwarz with the reciprocal basis of the supercell:                            *)
-(*  w_i^2 det G <= d2 * adj(S^T G S)_ii  for w = adj(S) v).                                 *)
+(*  w_i^2 det G <= d2 * adj(R^T G R)_ii  for w = adj(R) v, R = rbas).                                 *)
 EXTENDS Integers, Sequences, FiniteSets, TLC, IntLinAlg
 
 CONSTANTS Events
@@ -39,21 +45,31 @@ Q3(G, v) == G[1][1]*v[1]*v[1] + G[2][2]*v[2]*v[2] + G[3][3]*v[3]*v[3]
 
 Sep(e, i, j) == <<e.upos[j][1] - e.upos[i][1], e.upos[j][2] - e.upos[i][2], e.upos[j][3] - e.upos[i][3]>>
 
-(* shortest image over the box *)
-MinD2(e, bx, i, j) ==
-  LET du == Sep(e, i, j)
-  IN  MinOf({Q3(e.gram, Img(e.smat, e.dd, du, n)) : n \in bx})
+(* the separation moved into the cell centred at the origin: du - D R n0 with                *)
+(* n0 = round(R^-1 du / D), so that its coefficients on the basis lie in [-1/2, 1/2]         *)
+Wrapped(e, du) ==
+  LET w == MatVec(Adj(e.rbas), du)
+      dt == e.dd * Det(e.rbas)
+      sg == Sign(dt)
+      m == Abs(dt)
+      n0 == <<FloorDiv(2 * sg * w[1] + m, 2 * m), FloorDiv(2 * sg * w[2] + m, 2 * m), FloorDiv(2 * sg * w[3] + m, 2 * m)>>
+  IN Img(e.rbas, e.dd, du, <<-n0[1], -n0[2], -n0[3]>>)
+
+(* shortest image over the box around the wrapped separation *)
+MinD2v(e, bx, i, j) ==
+  LET d0 == Wrapped(e, Sep(e, i, j))
+  IN  MinOf({Q3(e.gram, Img(e.rbas, e.dd, d0, n)) : n \in bx})
 
 NAt(e) == Len(e.upos)
 Rows(e) == 1..Len(e.rows)              \* e.rows[r] = supercell atom of row r (1..n for the full layout)
 Pairs(e) == Rows(e) \X (1..NAt(e))
 
-SGram(e) == MatMul(Transpose(e.smat), MatMul(e.gram, e.smat))
+SGram(e) == MatMul(Transpose(e.rbas), MatMul(e.gram, e.rbas))
 
 PairBoxSound(e, r, j) ==
-  LET du == Sep(e, e.rows[r], j)
-      w == MatVec(Adj(e.smat), du)
-      m == e.dd * Abs(Det(e.smat)) * (e.box + 1)
+  LET du == Wrapped(e, Sep(e, e.rows[r], j))
+      w == MatVec(Adj(e.rbas), du)
+      m == e.dd * Abs(Det(e.rbas)) * (e.box + 1)
       A == Adj(SGram(e))
       dg == Det(e.gram)
   IN \A i \in I3 : m > Abs(w[i]) /\ (m - Abs(w[i])) * (m - Abs(w[i])) * dg > dtab[<<r, j>>] * A[i][i]
@@ -79,6 +95,9 @@ Judgements(e) ==
   IN
   [ \* ---- model side: decided on the exact table
     ReqBoxSound |-> \A p \in Pairs(e) : PairBoxSound(e, p[1], p[2]),
+    ReqRebase |-> Unimodular(e.umat) /\ \A i, j \in I3 : e.rbas[i][j] = MatMul(e.smat, e.umat)[i][j],
+    ReqAtomsDistinct |-> /\ n = e.nunit * Abs(Det(e.smat))
+                         /\ Cardinality({ClassKey(e.smat, e.dd, e.upos[i]) : i \in 1..n}) = n,
     ReqSelfZero |-> \A r \in Rows(e) : \A j \in 1..n : (dtab[<<r, j>>] = 0) <=> (j = e.rows[r]),
     ReqSymmetric |-> full => \A i, j \in 1..n : dtab[<<i, j>>] = dtab[<<j, i>>],
     ReqPeriodic |-> Cardinality({<<ktab[p], dtab[p]>> : p \in Pairs(e)}) = Cardinality({ktab[p] : p \in Pairs(e)}),
@@ -94,7 +113,7 @@ Judgements(e) ==
     ImplCompactIsRowsOfFull |-> (~full) => \A r \in Rows(e) : \A j \in 1..n : e.st[r][j] = e.sf[e.rows[r]][j]
   ]
 
-JNames == {"ReqBoxSound", "ReqSelfZero", "ReqSymmetric", "ReqPeriodic", "ReqOffBoundary", "ReqMonotone", "ReqSymmetricKept",
+JNames == {"ReqBoxSound", "ReqRebase", "ReqAtomsDistinct", "ReqSelfZero", "ReqSymmetric", "ReqPeriodic", "ReqOffBoundary", "ReqMonotone", "ReqSymmetricKept",
            "ReqAllKeptBeyondDiameter", "ImplKeptIffWithin", "ImplIdempotent", "ImplCompose", "ImplDirect",
            "ImplCompactIsRowsOfFull"}
 
@@ -103,7 +122,7 @@ Init == ev \in Events /\ pc = "load" /\ dtab = <<>> /\ ktab = <<>> /\ failed = {
 Load ==
   /\ pc = "load"
   /\ \E bx \in {Box(ev.box)} :
-       dtab' = Materialize([p \in Pairs(ev) |-> MinD2(ev, bx, ev.rows[p[1]], p[2])])
+       dtab' = Materialize([p \in Pairs(ev) |-> MinD2v(ev, bx, ev.rows[p[1]], p[2])])
   /\ ktab' = Materialize([p \in Pairs(ev) |-> ClassKey(ev.smat, ev.dd, Sep(ev, ev.rows[p[1]], p[2]))])
   /\ pc' = "judge"
   /\ UNCHANGED <<ev, failed>>
@@ -121,6 +140,8 @@ AtEnd == pc = "done"
 Holds(nm) == AtEnd => nm \notin failed
 
 ReqBoxSound == Holds("ReqBoxSound")
+ReqRebase == Holds("ReqRebase")
+ReqAtomsDistinct == Holds("ReqAtomsDistinct")
 ReqSelfZero == Holds("ReqSelfZero")
 ReqSymmetric == Holds("ReqSymmetric")
 ReqPeriodic == Holds("ReqPeriodic")
